@@ -23,6 +23,6 @@ func main() {
 		run.Set("configurations", tv.ConfigNames())
 		run.Finish()
 	}
-	tv.RunC02(run, tv.Backend(), tv.QueriesC02(b.Features), b)
+	tv.RunC02(run, tv.Backend(), tv.AllQueries(string(run.Tier), b.Features), b)
 	run.Finish()
 }
